@@ -20,6 +20,7 @@ import (
 
 	"github.com/casbin/casbin/v2/constant"
 	"github.com/casbin/casbin/v2/errors"
+	"github.com/casbin/casbin/v2/rbac"
 	"github.com/casbin/casbin/v2/util"
 )
 
@@ -288,25 +289,37 @@ func (e *Enforcer) GetImplicitUsersForRole(name string, domain ...string) ([]str
 	res := []string{}
 
 	for _, rm := range e.rmMap {
-		roleSet := make(map[string]bool)
-		roleSet[name] = true
-		q := make([]string, 0)
-		q = append(q, name)
+		users, err := implicitUsersOf(rm, name, domain...)
+		if err != nil {
+			return nil, err
+		}
+		res = append(res, users...)
+	}
 
-		for len(q) > 0 {
-			name := q[0]
-			q = q[1:]
+	return res, nil
+}
 
-			roles, err := rm.GetUsers(name, domain...)
-			if err != nil && err.Error() != "error: name does not exist" {
-				return nil, err
-			}
-			for _, r := range roles {
-				if _, ok := roleSet[r]; !ok {
-					res = append(res, r)
-					q = append(q, r)
-					roleSet[r] = true
-				}
+// implicitUsersOf lists every name that inherits role in rm, directly or through other roles.
+func implicitUsersOf(rm rbac.RoleManager, role string, domain ...string) ([]string, error) {
+	res := []string{}
+	roleSet := make(map[string]bool)
+	roleSet[role] = true
+	q := make([]string, 0)
+	q = append(q, role)
+
+	for len(q) > 0 {
+		name := q[0]
+		q = q[1:]
+
+		roles, err := rm.GetUsers(name, domain...)
+		if err != nil && err.Error() != "error: name does not exist" {
+			return nil, err
+		}
+		for _, r := range roles {
+			if _, ok := roleSet[r]; !ok {
+				res = append(res, r)
+				q = append(q, r)
+				roleSet[r] = true
 			}
 		}
 	}
@@ -573,12 +586,17 @@ func (e *Enforcer) GetImplicitUsersForResource(resource string) ([][]string, err
 		if !isRole[sub] {
 			permissions = append(permissions, rule)
 		} else {
-			users, err := rm.GetUsers(sub)
+			// every user that reaches the role, however many roles lie in between; roles
+			// themselves are not users
+			users, err := implicitUsersOf(rm, sub)
 			if err != nil {
 				return nil, err
 			}
 
 			for _, user := range users {
+				if isRole[user] {
+					continue
+				}
 				implicitUserRule := deepCopyPolicy(rule)
 				implicitUserRule[subjectIndex] = user
 				permissions = append(permissions, implicitUserRule)
@@ -626,12 +644,15 @@ func (e *Enforcer) GetImplicitUsersForResourceByDomain(resource string, domain s
 			if domain != rule[domIndex] {
 				continue
 			}
-			users, err := rm.GetUsers(sub, domain)
+			users, err := implicitUsersOf(rm, sub, domain)
 			if err != nil {
 				return nil, err
 			}
 
 			for _, user := range users {
+				if isRole[user] {
+					continue
+				}
 				implicitUserRule := deepCopyPolicy(rule)
 				implicitUserRule[subjectIndex] = user
 				permissions = append(permissions, implicitUserRule)
